@@ -90,7 +90,7 @@ def u_get_data_dir(I):
         check_outcome(I, out, raises={}, returns=lambda r: [('a cached directory is returned as it is', z3_of(r) == cached),
                                                             ('cache unchanged', z3.BoolVal(newcache is cached))])
     elif case == 'env':
-        check_outcome(I, out, raises={'RuntimeError': z3.Not(IsDir(env))}, returns=lambda r: [
+        check_outcome(I, out, raises={'*': z3.Not(IsDir(env))}, returns=lambda r: [
             ('the environment override selects the data directory', z3_of(r) == env), ('and is cached', z3_of(newcache) == env)])
     else:
         bp = hold.get('bp')
@@ -101,7 +101,7 @@ def u_get_data_dir(I):
             return [('bundled data: <first ancestor ending in /pgradd>/data', z3.And(z3_of(r) == Join(bp, z3.StringVal('data')), z3.SuffixOf(z3.StringVal('/pgradd'), bp), bp != z3.StringVal('/'))),
                     ('and is cached', z3_of(newcache) == z3_of(r))]
         cond = z3.BoolVal(True) if bp is None else z3.Or(bp == z3.StringVal('/'), z3.Not(IsDir(Join(bp, z3.StringVal('data')))))
-        check_outcome(I, out, raises={'RuntimeError': cond}, returns=posts)
+        check_outcome(I, out, raises={'*': cond}, returns=posts)
     writes = [e for e in ctx.effects if e[0] == 'write-global' and e[2] != '_data_dir_cached']
     ctx.oblige('only the cache variable is written', z3.BoolVal(not writes))
     return {'inputs': {}}
